@@ -761,4 +761,28 @@ def exIO : IOStatic :=
 def exSt : IOSim := { sim := exS, times := [0], out := [[1], [-9/4]] }
 
 
+/-! ### histories with failed steps: the object keeps its shape through every call -/
+
+theorem update_obj_length (M : Static) (F G : ResFn) (root : Root) (hroot : RootSound root)
+    (hwf : NomWF M) (s : Sim) (dtArg : Rat) (hlen : s.sv.length = M.L.len) :
+    (update M F G root s dtArg).obj.sv.length = M.L.len := by
+  cases h : update M F G root s dtArg with
+  | returned s' => exact (update_returned M F G root hroot hwf s s' dtArg hlen h).2.1
+  | raised s' =>
+    have hu := update_unfold M F G root s dtArg hwf hlen
+    simp only at hu
+    rw [hu] at h
+    split at h
+    · cases h; simp [Outcome.obj, hlen]
+    · cases h
+
+theorem applyOp_lengths (M : Static) (F G : ResFn) (root : Root) (hroot : RootSound root)
+    (hwf : NomWF M) (o : SimObj) (hcur : o.cur.sv.length = M.L.len) (hinit : o.init.length = M.L.len)
+    (op : Op) :
+    (applyOp M F G root o op).cur.sv.length = M.L.len ∧ (applyOp M F G root o op).init.length = M.L.len := by
+  cases op with
+  | update dtArg => exact ⟨update_obj_length M F G root hroot hwf o.cur dtArg hcur, hinit⟩
+  | setVar i neg v => exact ⟨by simp [applyOp, setVar, hcur], hinit⟩
+  | reset => exact ⟨hinit, hinit⟩
+
 end RtcVerif.C09
